@@ -69,6 +69,22 @@ def descend(prop, ops, sig, budget):
     while progress and budget[0] > 0:
         progress = False
         for i, op in enumerate(ops):
+            if op[0] == "e3" and len(op[2]) > 2:
+                # pre-emptive sub-world: try dropping one task at a time
+                for j in range(len(op[2])):
+                    if budget[0] <= 0:
+                        break
+                    c2 = copy.deepcopy(op)
+                    del c2[2][j]
+                    budget[0] -= 1
+                    cand = ops[:i] + [c2] + ops[i + 1:]
+                    if trial(prop, cand, sig):
+                        ops = cand
+                        progress = True
+                        break
+                if progress:
+                    break
+                continue
             if op[0] != "new":
                 continue
             cands = []
